@@ -25,6 +25,27 @@ def sh(cmd, timeout=3600, env=None, cwd=None):
         return 124, (e.stdout or "") + "\nTIMEOUT", time.time() - t0
 
 
+def demo_root(pid, x, dst):
+    """a directory that looks like the sub-agent's worktree to its demo.py (SEED/<x>/demo.py next to
+    blackbird_python, src, ...) but whose package directories are /repo's"""
+    root = os.path.join(VERIF, "work", "demo", "%s_%s" % (pid, x))
+    shutil.rmtree(root, ignore_errors=True)
+    os.makedirs(os.path.join(root, "SEED", x))
+    shutil.copy(os.path.join(dst, "demo.py"), os.path.join(root, "SEED", x, "demo.py"))
+    for name in os.listdir(REPO):
+        if name != ".git":
+            os.symlink(os.path.join(REPO, name), os.path.join(root, name))
+    return root
+
+
+def run_demo(pid, x, dst, env):
+    root = demo_root(pid, x, dst)
+    try:
+        return sh("/venv/bin/python %s" % os.path.join("SEED", x, "demo.py"), env=env, cwd=root, timeout=900)
+    finally:
+        shutil.rmtree(root, ignore_errors=True)
+
+
 def main(argv):
     pid, x = argv[0], argv[1]
     dst = os.path.join(VERIF, "seeded", pid, x)
@@ -47,7 +68,7 @@ def main(argv):
         print("patch does not apply: " + out)
         return 2
     try:
-        rc, out, _ = sh("/venv/bin/python %s" % os.path.join(dst, "demo.py"), env=env, cwd=dst, timeout=600)
+        rc, out, _ = run_demo(pid, x, dst, env)
         res["demo_with_change"] = rc
         res["demo_output_tail"] = out[-1500:]
         rc, out, wall = sh("./check %s quick" % pid, env=env, cwd=VERIF, timeout=3600)
@@ -61,7 +82,7 @@ def main(argv):
         sh("git -C %s checkout -- ." % REPO)
     rc, out, _ = sh("git -C %s status --porcelain" % REPO)
     res["repo_clean_after"] = (out.strip() == "")
-    rc, out, _ = sh("/venv/bin/python %s" % os.path.join(dst, "demo.py"), env=env, cwd=dst, timeout=600)
+    rc, out, _ = run_demo(pid, x, dst, env)
     res["demo_unchanged_tree"] = rc
     res["caught"] = ("quick" if res["quick"]["exit"] == 1 else
                      "thorough" if res.get("thorough", {}).get("exit") == 1 else "no")
